@@ -199,9 +199,13 @@ Fixpoint refers_to (name : str) (s : str) : bool :=
        | [] => true
        end) || refers_to name s'
   end.
+(* placeholder entries name themselves: one or more upper case letters followed by exactly six digits *)
+Definition is_placeholder_name (s : str) : bool :=
+  let (u, r) := span is_upper s in nonempty u && Nat.eqb (length r) 6 && forallb is_digit r.
 Definition circular (k : key) (v : tree) : bool :=
   match k, v with
-  | KS name, Leaf (SStr t) => nonempty name && refers_to name t
+  | KS name, Leaf (SStr t) =>
+      (nonempty name && refers_to name t) || (str_eqb name t && is_placeholder_name name)
   | _, _ => false
   end.
 
